@@ -1,20 +1,496 @@
 //! The MMIO seam (safe-mmio `custom-mmio`): every load/store of the real MmioTransport,
-//! PciTransport and MmioCam arrives here with its address, width and value.
+//! PciTransport and MmioCam arrives here with its address, width and value. Nothing behind these
+//! windows is real memory; the windows are never dereferenced.
+//!
+//! This file also contains the register-level virtio-mmio reference device (version 1 and 2),
+//! transcribed from the specification's register table (DESIGN appendix A). It is the C10 oracle:
+//! width, alignment, direction, offsets defined for the version, ordering of per-queue writes.
 
-/// Fake, never dereferenced virtual window for PCI BARs.
+use crate::world::{self, World};
+
+/// Fake, never dereferenced virtual windows.
+pub const MMIO_VIRT_BASE: usize = 0x7000_0000_0000;
+pub const MMIO_VIRT_SIZE: usize = 0x10_0000;
 pub const BAR_VIRT_BASE: usize = 0x6000_0000_0000;
+pub const BAR_VIRT_SIZE: usize = 0x1000_0000_0000;
+pub const CAM_VIRT_BASE: usize = 0x5000_0000_0000;
+pub const CAM_VIRT_SIZE: usize = 0x1000_0000;
+
+#[derive(Clone, Debug, PartialEq, Eq)]
+pub struct MmioAcc {
+    /// 'M' virtio-mmio window, 'B' PCI BAR window, 'C' PCI configuration access window
+    pub window: char,
+    /// offset inside the window (for 'B': the physical address)
+    pub off: u64,
+    pub width: u8,
+    pub write: bool,
+    pub value: u64,
+}
+
+#[derive(Default)]
+pub struct MmioBus {
+    pub capture: Option<Vec<MmioAcc>>,
+    pub dev: Option<MmioDev>,
+    pub pci: Option<crate::pcidev::PciWorld>,
+    pub accesses: u64,
+}
+
+/// Register-level state of the virtio-mmio device that is not part of the generic device state.
+pub struct MmioDev {
+    pub version: u32,
+    pub magic: u32,
+    pub device_id: u32,
+    pub vendor_id: u32,
+    /// Size of the whole region handed to the driver (header + config).
+    pub region_size: usize,
+    pub dev_feat_sel: u32,
+    pub drv_feat_sel: u32,
+    pub drv_feat_lo: u32,
+    pub drv_feat_hi: u32,
+    pub queue_sel: u32,
+    pub queue_num: u32,
+    pub queue_align: u32,
+    pub guest_page_size: u32,
+    pub guest_page_size_written: bool,
+    pub desc_lo: u32,
+    pub desc_hi: u32,
+    pub drv_lo: u32,
+    pub drv_hi: u32,
+    pub dev_lo: u32,
+    pub dev_hi: u32,
+    /// Registers written since the last QueueSel write (for the ordering oracle).
+    pub written_since_sel: Vec<u32>,
+    /// QueueReady reads that still return 1 after a 0 was written (late-clearing fault).
+    pub ready_clear_delay: u32,
+    pub ready_pending_clear: Option<u32>,
+    /// Number of reads of QueueReady while the clear was pending.
+    pub ready_polls: u64,
+    /// Was anything written at all (probe must not write).
+    pub writes: u64,
+    /// Strict register-discipline checking (C10 oracle) on/off.
+    pub strict: bool,
+}
+
+impl MmioDev {
+    pub fn new(version: u32, device_id: u32, region_size: usize) -> Self {
+        MmioDev {
+            version,
+            magic: 0x7472_6976,
+            device_id,
+            vendor_id: 0x554d_4551,
+            region_size,
+            dev_feat_sel: 0,
+            drv_feat_sel: 0,
+            drv_feat_lo: 0,
+            drv_feat_hi: 0,
+            queue_sel: 0,
+            queue_num: 0,
+            queue_align: 0,
+            guest_page_size: 0,
+            guest_page_size_written: false,
+            desc_lo: 0,
+            desc_hi: 0,
+            drv_lo: 0,
+            drv_hi: 0,
+            dev_lo: 0,
+            dev_hi: 0,
+            written_since_sel: Vec::new(),
+            ready_clear_delay: 0,
+            ready_pending_clear: None,
+            ready_polls: 0,
+            writes: 0,
+            strict: true,
+        }
+    }
+}
+
+const R: u8 = 1;
+const W: u8 = 2;
+/// (offset, name, access, versions: 1 legacy only, 2 modern only, 3 both)
+pub const REGS: &[(u32, &str, u8, u8)] = &[
+    (0x000, "MagicValue", R, 3),
+    (0x004, "Version", R, 3),
+    (0x008, "DeviceID", R, 3),
+    (0x00c, "VendorID", R, 3),
+    (0x010, "DeviceFeatures", R, 3),
+    (0x014, "DeviceFeaturesSel", W, 3),
+    (0x020, "DriverFeatures", W, 3),
+    (0x024, "DriverFeaturesSel", W, 3),
+    (0x028, "GuestPageSize", W, 1),
+    (0x030, "QueueSel", W, 3),
+    (0x034, "QueueNumMax", R, 3),
+    (0x038, "QueueNum", W, 3),
+    (0x03c, "QueueAlign", W, 1),
+    (0x040, "QueuePFN", R | W, 1),
+    (0x044, "QueueReady", R | W, 2),
+    (0x050, "QueueNotify", W, 3),
+    (0x060, "InterruptStatus", R, 3),
+    (0x064, "InterruptACK", W, 3),
+    (0x070, "Status", R | W, 3),
+    (0x080, "QueueDescLow", W, 2),
+    (0x084, "QueueDescHigh", W, 2),
+    (0x090, "QueueDriverLow", W, 2),
+    (0x094, "QueueDriverHigh", W, 2),
+    (0x0a0, "QueueDeviceLow", W, 2),
+    (0x0a4, "QueueDeviceHigh", W, 2),
+    (0x0fc, "ConfigGeneration", R, 2),
+];
+
+pub fn reg_name(off: u32) -> &'static str {
+    REGS.iter().find(|r| r.0 == off).map(|r| r.1).unwrap_or("reserved")
+}
+
+impl World {
+    fn mmio_violation(&mut self, class: &str, site: &str, msg: String) {
+        let strict = self.bus.dev.as_ref().map(|d| d.strict).unwrap_or(true);
+        if strict {
+            self.violation(class, site, msg);
+        }
+    }
+
+    /// One access to the virtio-mmio window.
+    fn mmio_dev_access(&mut self, off: u64, width: u8, write: Option<u64>) -> u64 {
+        let Some(region) = self.bus.dev.as_ref().map(|d| d.region_size) else {
+            self.violation("mmio-no-device", "mmio", format!("access at {off:#x} without a device"));
+            return 0;
+        };
+        if off + width as u64 > region as u64 {
+            self.violation(
+                "mmio-out-of-region",
+                "mmio",
+                format!("{}-byte {} at offset {off:#x} outside the {region:#x}-byte region", width, if write.is_some() { "write" } else { "read" }),
+            );
+            return 0;
+        }
+        if off >= 0x100 {
+            // device configuration space
+            let o = (off - 0x100) as usize;
+            let n = width as usize;
+            if off % width as u64 != 0 {
+                self.mmio_violation("mmio-config-misaligned", "config", format!("{n}-byte access at config offset {o:#x}"));
+            }
+            return match write {
+                None => {
+                    let mut b = [0u8; 8];
+                    if !self.t_read_config(o, &mut b[..n]) {
+                        self.violation("config-access-out-of-window", "config", format!("read of {n} bytes at config offset {o:#x} beyond the device's configuration"));
+                    }
+                    u64::from_le_bytes(b)
+                }
+                Some(v) => {
+                    let b = v.to_le_bytes();
+                    if !self.t_write_config(o, &b[..n]) {
+                        self.violation("config-access-out-of-window", "config", format!("write of {n} bytes at config offset {o:#x} beyond the device's configuration"));
+                    }
+                    0
+                }
+            };
+        }
+        let o = off as u32;
+        let version = self.bus.dev.as_ref().unwrap().version;
+        let vbit = if version == 1 { 1 } else { 2 };
+        let name = reg_name(o);
+        if width != 4 || o % 4 != 0 {
+            self.mmio_violation("mmio-access-width", name, format!("{width}-byte access at register offset {o:#x}; registers are 32 bits wide and 4-aligned"));
+        }
+        let def = REGS.iter().find(|r| r.0 == (o & !3)).copied();
+        match def {
+            None => {
+                self.mmio_violation("mmio-reserved-register", "reserved", format!("{} of reserved offset {o:#x}", if write.is_some() { "write" } else { "read" }));
+                return 0;
+            }
+            Some((_, _, acc, vers)) => {
+                if vers & vbit == 0 {
+                    self.mmio_violation(
+                        "mmio-wrong-version-register",
+                        name,
+                        format!("{name} ({o:#x}) accessed on a version {version} device; it exists only in the {} interface", if vers == 1 { "legacy" } else { "modern" }),
+                    );
+                }
+                if write.is_some() && acc & W == 0 {
+                    self.mmio_violation("mmio-write-to-read-only", name, format!("write to read-only register {name} ({o:#x})"));
+                    return 0;
+                }
+                if write.is_none() && acc & R == 0 {
+                    self.mmio_violation("mmio-read-of-write-only", name, format!("read of write-only register {name} ({o:#x})"));
+                    return 0;
+                }
+            }
+        }
+        match write {
+            None => self.mmio_reg_read(o),
+            Some(v) => {
+                self.bus.dev.as_mut().unwrap().writes += 1;
+                self.mmio_reg_write(o, v as u32);
+                0
+            }
+        }
+    }
+
+    fn mmio_reg_read(&mut self, o: u32) -> u64 {
+        let d = self.bus.dev.as_ref().unwrap();
+        let sel = d.queue_sel;
+        let v: u32 = match o {
+            0x000 => d.magic,
+            0x004 => d.version,
+            0x008 => d.device_id,
+            0x00c => d.vendor_id,
+            0x010 => {
+                let s = d.dev_feat_sel;
+                let f = self.t_read_features();
+                match s {
+                    0 => f as u32,
+                    1 => (f >> 32) as u32,
+                    _ => 0,
+                }
+            }
+            0x034 => self.t_max_queue_size(sel as u16),
+            0x040 => {
+                // legacy: PFN of the selected queue (non-zero = in use)
+                let used = self.t_queue_used(sel as u16);
+                let d = self.bus.dev.as_ref().unwrap();
+                if used {
+                    let desc = self.tr.queues.get(sel as usize).map(|q| q.desc).unwrap_or(0);
+                    if desc != 0 && d.guest_page_size != 0 { (desc / d.guest_page_size as u64) as u32 } else { 1 }
+                } else {
+                    0
+                }
+            }
+            0x044 => {
+                // modern: QueueReady, possibly clearing late
+                let pending = self.bus.dev.as_ref().unwrap().ready_pending_clear;
+                if let Some(n) = pending {
+                    let d = self.bus.dev.as_mut().unwrap();
+                    d.ready_polls += 1;
+                    if n == 0 {
+                        d.ready_pending_clear = None;
+                        self.t_queue_unset(sel as u16);
+                        0
+                    } else {
+                        d.ready_pending_clear = Some(n - 1);
+                        *self.stats.faults.entry("queue_ready_clears_late").or_insert(0) += 1;
+                        self.sched_point(world::PointKind::Transport);
+                        1
+                    }
+                } else {
+                    self.t_queue_used(sel as u16) as u32
+                }
+            }
+            0x060 => {
+                self.sched_point(world::PointKind::Transport);
+                self.tr.isr
+            }
+            0x070 => self.t_get_status(),
+            0x0fc => self.t_read_gen(),
+            _ => 0,
+        };
+        v as u64
+    }
+
+    fn mmio_reg_write(&mut self, o: u32, v: u32) {
+        let version = self.bus.dev.as_ref().unwrap().version;
+        {
+            let d = self.bus.dev.as_mut().unwrap();
+            if o == 0x030 {
+                d.written_since_sel.clear();
+            } else {
+                d.written_since_sel.push(o);
+            }
+        }
+        let sel = self.bus.dev.as_ref().unwrap().queue_sel as u16;
+        match o {
+            0x014 => self.bus.dev.as_mut().unwrap().dev_feat_sel = v,
+            0x024 => self.bus.dev.as_mut().unwrap().drv_feat_sel = v,
+            0x020 => {
+                let d = self.bus.dev.as_mut().unwrap();
+                match d.drv_feat_sel {
+                    0 => d.drv_feat_lo = v,
+                    1 => d.drv_feat_hi = v,
+                    _ => {}
+                }
+                let f = (d.drv_feat_lo as u64) | ((d.drv_feat_hi as u64) << 32);
+                // The device state always holds the combination of both halves written so far.
+                self.t_write_features(f);
+            }
+            0x028 => {
+                let d = self.bus.dev.as_mut().unwrap();
+                d.guest_page_size = v;
+                d.guest_page_size_written = true;
+                self.tr.guest_page_size = v;
+                self.tr_event(world::TrEv::SetGuestPageSize(v));
+            }
+            0x030 => self.bus.dev.as_mut().unwrap().queue_sel = v,
+            0x038 => self.bus.dev.as_mut().unwrap().queue_num = v,
+            0x03c => self.bus.dev.as_mut().unwrap().queue_align = v,
+            0x040 => {
+                // legacy QueuePFN: non-zero registers the queue, zero releases it
+                if v == 0 {
+                    self.t_queue_unset(sel);
+                } else {
+                    let d = self.bus.dev.as_ref().unwrap();
+                    let (num, align, gps, gpsw) = (d.queue_num, d.queue_align, d.guest_page_size, d.guest_page_size_written);
+                    let w = d.written_since_sel.clone();
+                    if !gpsw {
+                        self.mmio_violation("mmio-legacy-no-guest-page-size", "QueuePFN", "QueuePFN written although GuestPageSize was never written".into());
+                    }
+                    let pos = |r: u32| w.iter().position(|x| *x == r);
+                    let (pn, pa, pp) = (pos(0x038), pos(0x03c), pos(0x040));
+                    if !(pn.is_some() && pa.is_some() && pn < pp && pa < pp) {
+                        self.mmio_violation(
+                            "mmio-queue-setup-order",
+                            "QueuePFN",
+                            format!("legacy queue setup must write QueueNum and QueueAlign before QueuePFN after selecting the queue; writes since QueueSel: {:x?}", w),
+                        );
+                    }
+                    if align == 0 || !align.is_power_of_two() {
+                        self.mmio_violation("mmio-queue-align", "QueueAlign", format!("QueueAlign {align} is not a power of two"));
+                    }
+                    let align = align.max(1) as u64;
+                    let n = num as u64;
+                    let desc = v as u64 * gps as u64;
+                    let driver = desc + 16 * n;
+                    let device = (driver + 6 + 2 * n + align - 1) & !(align - 1);
+                    self.t_queue_set(sel, num, desc, driver, device);
+                }
+            }
+            0x044 => {
+                if v == 1 {
+                    let d = self.bus.dev.as_ref().unwrap();
+                    let w = d.written_since_sel.clone();
+                    let need = [0x038u32, 0x080, 0x084, 0x090, 0x094, 0x0a0, 0x0a4];
+                    let ready_pos = w.iter().rposition(|x| *x == 0x044).unwrap();
+                    let all_before = need.iter().all(|r| w.iter().position(|x| x == r).is_some_and(|p| p < ready_pos));
+                    if !all_before {
+                        self.mmio_violation(
+                            "mmio-queue-setup-order",
+                            "QueueReady",
+                            format!("QueueReady written 1 before all queue parameters (QueueNum and the three address pairs) were written after selecting the queue; writes since QueueSel: {:x?}", w),
+                        );
+                    }
+                    let d = self.bus.dev.as_ref().unwrap();
+                    let desc = d.desc_lo as u64 | ((d.desc_hi as u64) << 32);
+                    let drv = d.drv_lo as u64 | ((d.drv_hi as u64) << 32);
+                    let dev = d.dev_lo as u64 | ((d.dev_hi as u64) << 32);
+                    let num = d.queue_num;
+                    self.t_queue_set(sel, num, desc, drv, dev);
+                } else if v == 0 {
+                    // The device may need a while to stop using the queue.
+                    let delay = self.bus.dev.as_ref().unwrap().ready_clear_delay;
+                    let n = if delay > 0 { self.tape.choose(delay as u64 + 1) as u32 } else { 0 };
+                    if self.t_queue_used_quiet(sel) {
+                        self.bus.dev.as_mut().unwrap().ready_pending_clear = Some(n);
+                        if n == 0 {
+                            self.bus.dev.as_mut().unwrap().ready_pending_clear = None;
+                            self.t_queue_unset(sel);
+                        }
+                    } else {
+                        self.t_queue_unset(sel);
+                    }
+                } else {
+                    self.mmio_violation("mmio-queue-ready-value", "QueueReady", format!("QueueReady written with {v}"));
+                }
+            }
+            0x050 => self.t_notify(v as u16),
+            0x064 => {
+                let before = self.tr.isr;
+                self.tr.isr &= !v;
+                self.ev(0x78, v as u64, before as u64);
+                self.tr_event(world::TrEv::AckInterrupt(v));
+            }
+            0x070 => {
+                // A pending late clear is resolved by a reset.
+                if v == 0 {
+                    self.bus.dev.as_mut().unwrap().ready_pending_clear = None;
+                }
+                self.t_set_status(v)
+            }
+            0x080 => self.bus.dev.as_mut().unwrap().desc_lo = v,
+            0x084 => self.bus.dev.as_mut().unwrap().desc_hi = v,
+            0x090 => self.bus.dev.as_mut().unwrap().drv_lo = v,
+            0x094 => self.bus.dev.as_mut().unwrap().drv_hi = v,
+            0x0a0 => self.bus.dev.as_mut().unwrap().dev_lo = v,
+            0x0a4 => self.bus.dev.as_mut().unwrap().dev_hi = v,
+            _ => {}
+        }
+        let _ = version;
+    }
+
+    pub fn t_queue_used_quiet(&self, q: u16) -> bool {
+        self.tr.queues.get(q as usize).map(|r| r.ready).unwrap_or(false)
+    }
+
+    pub fn mmio_access(&mut self, addr: usize, width: u8, write: Option<u64>) -> u64 {
+        self.bus.accesses += 1;
+        let (window, off) = if (MMIO_VIRT_BASE..MMIO_VIRT_BASE + MMIO_VIRT_SIZE).contains(&addr) {
+            ('M', (addr - MMIO_VIRT_BASE) as u64)
+        } else if (CAM_VIRT_BASE..CAM_VIRT_BASE + CAM_VIRT_SIZE).contains(&addr) {
+            ('C', (addr - CAM_VIRT_BASE) as u64)
+        } else if (BAR_VIRT_BASE..BAR_VIRT_BASE + BAR_VIRT_SIZE).contains(&addr) {
+            ('B', (addr - BAR_VIRT_BASE) as u64)
+        } else {
+            self.violation("mmio-wild-access", "mmio", format!("MMIO access to {addr:#x}, which is in no window handed to the driver"));
+            return 0;
+        };
+        self.ev(0x80 + (window as u8 & 0xf), off, ((width as u64) << 40) | write.map(|v| v & 0xff_ffff_ffff).unwrap_or(0x1_0000_0000));
+        let v = match window {
+            'M' => self.mmio_dev_access(off, width, write),
+            'C' => crate::pcidev::cam_access(self, off, width, write),
+            _ => crate::pcidev::bar_access(self, off, width, write),
+        };
+        let mask = if width >= 8 { u64::MAX } else { (1u64 << (8 * width as u32)) - 1 };
+        let rec = MmioAcc { window, off, width, write: write.is_some(), value: write.unwrap_or(v) & mask };
+        if let Some(t) = &mut self.trace {
+            if t.len() < 100_000 {
+                t.push(format!(
+                    "[{}] mmio {}{} {} {:#x}{} = {:#x}",
+                    self.tick,
+                    if rec.write { "w" } else { "r" },
+                    width * 8,
+                    window,
+                    off,
+                    if window == 'M' && off < 0x100 { format!(" ({})", reg_name(off as u32 & !3)) } else { String::new() },
+                    rec.value
+                ));
+            }
+        }
+        if let Some(c) = &mut self.bus.capture {
+            c.push(rec);
+        }
+        v & mask
+    }
+}
 
 struct Ops;
 
+fn acc(addr: usize, width: u8, write: Option<u64>) -> u64 {
+    world::with(|w| w.mmio_access(addr, width, write))
+}
+
 impl safe_mmio::MmioOps for Ops {
-    unsafe fn read_u8(src: *const u8) -> u8 { unimplemented!("{src:?}") }
-    unsafe fn read_u16(src: *const u16) -> u16 { unimplemented!("{src:?}") }
-    unsafe fn read_u32(src: *const u32) -> u32 { unimplemented!("{src:?}") }
-    unsafe fn read_u64(src: *const u64) -> u64 { unimplemented!("{src:?}") }
-    unsafe fn write_u8(dst: *mut u8, _value: u8) { unimplemented!("{dst:?}") }
-    unsafe fn write_u16(dst: *mut u16, _value: u16) { unimplemented!("{dst:?}") }
-    unsafe fn write_u32(dst: *mut u32, _value: u32) { unimplemented!("{dst:?}") }
-    unsafe fn write_u64(dst: *mut u64, _value: u64) { unimplemented!("{dst:?}") }
+    unsafe fn read_u8(src: *const u8) -> u8 {
+        acc(src as usize, 1, None) as u8
+    }
+    unsafe fn read_u16(src: *const u16) -> u16 {
+        acc(src as usize, 2, None) as u16
+    }
+    unsafe fn read_u32(src: *const u32) -> u32 {
+        acc(src as usize, 4, None) as u32
+    }
+    unsafe fn read_u64(src: *const u64) -> u64 {
+        acc(src as usize, 8, None)
+    }
+    unsafe fn write_u8(dst: *mut u8, value: u8) {
+        acc(dst as usize, 1, Some(value as u64));
+    }
+    unsafe fn write_u16(dst: *mut u16, value: u16) {
+        acc(dst as usize, 2, Some(value as u64));
+    }
+    unsafe fn write_u32(dst: *mut u32, value: u32) {
+        acc(dst as usize, 4, Some(value as u64));
+    }
+    unsafe fn write_u64(dst: *mut u64, value: u64) {
+        acc(dst as usize, 8, Some(value));
+    }
 }
 
 safe_mmio::set_mmio_ops!(Ops);
